@@ -591,6 +591,37 @@ impl<'tcx> Cx<'tcx> {
                                     "bytes",
                                     J::Arr(bytes.iter().map(|b| J::Int(*b as i128)).collect()),
                                 );
+                            } else if a.provenance().ptrs().len() == 1
+                                && a.len() == 16
+                                && off.bytes() == 0
+                                && matches!(ty.kind(), ty::Ref(_, inner, _) if matches!(inner.kind(), ty::Ref(_, t2, _) if t2.is_str() || t2.is_slice()))
+                            {
+                                // promoted `&&str` / `&&[u8]`: one fat pointer (ptr, len) to the text
+                                let raw = a.inspect_with_uninit_and_ptr_outside_interpreter(0..16);
+                                let mut lenb = [0u8; 8];
+                                lenb.copy_from_slice(&raw[8..16]);
+                                let n = u64::from_le_bytes(lenb) as usize;
+                                let mut offb = [0u8; 8];
+                                offb.copy_from_slice(&raw[0..8]);
+                                let inner_off = u64::from_le_bytes(offb) as usize;
+                                if let Some((_, prov2)) = a.provenance().ptrs().iter().next() {
+                                    if let GlobalAlloc::Memory(b) = tcx.global_alloc(prov2.alloc_id()) {
+                                        let b = b.inner();
+                                        if b.provenance().ptrs().is_empty()
+                                            && inner_off + n <= b.len()
+                                            && n <= 4096
+                                        {
+                                            let bytes = b.inspect_with_uninit_and_ptr_outside_interpreter(
+                                                inner_off..inner_off + n,
+                                            );
+                                            o.set(
+                                                "bytes",
+                                                J::Arr(bytes.iter().map(|b| J::Int(*b as i128)).collect()),
+                                            );
+                                            o.set("indirect", J::Int(1));
+                                        }
+                                    }
+                                }
                             }
                         }
                         GlobalAlloc::Static(sdid) => {
